@@ -398,8 +398,8 @@ def main(argv):
                 c.violation("individual-fields: IndividualFields(line %r, -f %s, -d %r) called back with %s; cut semantics give %s" % (l, s.decode(), bytes([d]), o, want),
                             {"op": "IndividualFields", "kind": "individual", "line_hex": hexs(l), "list": s.decode(), "delim": d, "impl": o, "expected": want})
 
-    if c.tier == "thorough":
-        asan_lines(c, "hx_fields", lines, "(exact-size heap copy of the line)")
+    # ASan/UBSan build of the harness: the line is an exact-size heap copy, pieces outside it or reads past it are reported
+    asan_lines(c, "hx_fields", lines if c.tier == "thorough" else lines[::3], "(exact-size heap copy of the line)")
 
     # ---------------- tool level: the key relation on line pairs
     pairs = gen_pairs(c)
